@@ -33,7 +33,7 @@ if ! go build ./... 2>/tmp/seedeval/$id-$k.build; then echo "$id-$k: DOES NOT BU
 if ! go test -vet=off -count=1 ./... >/tmp/seedeval/$id-$k.tests 2>&1; then echo "$id-$k: EXISTING TESTS FAIL WITH PATCH"; tail -5 /tmp/seedeval/$id-$k.tests; exit 3; fi
 patched=$(demo_status patched)
 echo "$id-$k: applies, builds, existing tests pass; demonstration: clean=$clean patched=$patched"
-out=$(cd /verif && VERIF_REPO=$wt ./check $id $tier 2>&1); rc=$?
+out=$(cd /verif && VERIF_EVIDENCE_DIR=/tmp/seedeval-evidence VERIF_REPO=$wt ./check $id $tier 2>&1); rc=$?
 first=$(echo "$out" | grep -E '^violation' | head -1 | cut -c1-400)
 echo "$id-$k: check $id $tier rc=$rc :: $first"
 echo "$out" | tail -1 | cut -c1-200
